@@ -42,8 +42,32 @@ def scratch(prefix):
     return tempfile.mkdtemp(prefix="verif-%s-" % prefix, dir=base)
 
 
-def run_driver(binary, args, timeout=1800, cwd=None, env=None):
+class ServerCrash(Exception):
+    """The server under test (which lives inside the driver process) died: a verdict, not infrastructure."""
+
+    def __init__(self, first, stderr):
+        Exception.__init__(self, first)
+        self.first = first
+        self.stderr = stderr
+
+
+def crash_violation(prop, tag, e, trace=None):
+    os.makedirs(os.path.join(VERIF, "evidence", "replay"), exist_ok=True)
+    rp = os.path.join(VERIF, "evidence", "replay", "%s-seed%d-%s-crash.txt" % (prop, seed(), tag))
+    last = ""
+    if trace and os.path.exists(trace):
+        ls = open(trace).read().splitlines()
+        last = ls[-1][:500] if ls else ""
+    open(rp, "w").write("last recorded event: %s\n\n%s" % (last, e.stderr[-20000:]))
+    return {"replay": rp, "line": 0, "diag": ["the server process died: " + e.first, "last recorded event: " + last]}
+
+
+def run_driver(binary, args, timeout=1800, cwd=None, env=None, crash_ok=False):
     p = subprocess.run([binary] + args, capture_output=True, text=True, timeout=timeout, cwd=cwd, env=env)
+    if p.returncode != 0 and crash_ok:
+        first = next((x for x in (p.stderr or "").splitlines() if "panic:" in x or "fatal error" in x), None)
+        if first:
+            raise ServerCrash(first, p.stderr or "")
     if p.returncode != 0:
         raise Infra("driver %s failed (exit %d):\n%s" % (" ".join(args[:3]), p.returncode, (p.stderr or "")[-4000:]))
     return p
